@@ -302,3 +302,39 @@ func U128Bytes(a U128) []byte {
 	}
 	return out
 }
+
+// And, Or: non-short-circuit boolean connectives (no path fork in the engine).
+func And(a, b bool) bool { return a && b }
+func Or(a, b bool) bool  { return a || b }
+func Implies(a, b bool) bool { return !a || b }
+
+// Ite64 etc.: if-then-else without a fork.
+func Ite64(c bool, a, b uint64) uint64 {
+	if c {
+		return a
+	}
+	return b
+}
+func Ite8(c bool, a, b uint8) uint8 {
+	if c {
+		return a
+	}
+	return b
+}
+func IteInt(c bool, a, b int) int {
+	if c {
+		return a
+	}
+	return b
+}
+
+// RefTZ64 is the bit-scan definition of trailing-zero count (64 for zero); in
+// the engine it is the very term used as the summary of bits.TrailingZeros64.
+func RefTZ64(x uint64) int {
+	for i := 0; i < 64; i++ {
+		if x>>uint(i)&1 == 1 {
+			return i
+		}
+	}
+	return 64
+}
